@@ -31,7 +31,7 @@ def placements(prog, rng, val):
     reach = [n for n in prog['order'] if n in gen.reachable(prog)]
     for n in reach:
         node = prog['nodes'][n]
-        for exc in ('E1', 'EOther'):
+        for exc in ('E1', 'EOther', 'Fatal', 'ECancel'):
             p = copy.deepcopy(prog)
             p['nodes'][n].setdefault('plan', {})['fail'] = ['ALWAYS', exc]
             p['nodes'][n]['plan'].pop('fail_when', None)
